@@ -6,7 +6,6 @@ use crate::haystack::val::{
     Bool, Column, Coord, Date, DateTime, Dict, Grid, List, Marker, Na, Number, Ref, Remove, Str,
     Symbol, Time, Uri, Value, XStr, GRID_FORMAT_VERSION,
 };
-use chrono::SecondsFormat;
 use std::fmt::Display;
 
 /// Zinc encoding trait implemented by scalar and collection types
@@ -173,11 +172,11 @@ impl ToZinc for Time {
 impl ToZinc for DateTime {
     fn to_zinc<W: std::io::Write>(&self, writer: &mut W) -> Result<()> {
         if self.is_utc() {
-            write_str(writer, &self.to_rfc3339_opts(SecondsFormat::AutoSi, true))?;
+            write_str(writer, &self.to_rfc3339_string())?;
         } else {
             writer.write_fmt(format_args!(
                 "{} {}",
-                &self.to_rfc3339_opts(SecondsFormat::AutoSi, true),
+                &self.to_rfc3339_string(),
                 &self.timezone_short_name()
             ))?
         }
